@@ -577,12 +577,19 @@ func (s *CatSc) checkOut(ro runOut, st *core.Stats, add func(clause, key, format
 	// lines the helper saw
 	linePos := map[int64]int{}
 	inDead := map[int64]bool{} // lines a process had read before it ended, without acting on them
+	atKill := map[int64]bool{} // lines still unread in the pipe of a process when the driver killed it
 	n := 0
 	for _, e := range ro.events {
 		switch e.kind {
 		case "helper-partial":
 			add("out-lines", "fragment", "the helper received the incomplete line %q", e.s)
 			return
+		case "helper-line-lost-at-kill":
+			if msg, ok := parseOutLine(e.s); ok {
+				if k, ok := keyOfRec(msg); ok {
+					atKill[k] = true
+				}
+			}
 		case "helper-line-lost-in-dead-process":
 			if msg, ok := parseOutLine(e.s); ok {
 				if k, ok := keyOfRec(msg); ok {
@@ -638,7 +645,17 @@ func (s *CatSc) checkOut(ro runOut, st *core.Stats, add func(clause, key, format
 				st.Probe("out:send-accepted-by-a-helper-that-had-just-ended")
 				continue
 			}
+			if !arrived && atKill[sd.k] {
+				// the driver itself killed the helper while the line was still on its way
+				add("out-lines", "lost", "%s: Send of message %d returned nil (at fake t=%d), the port was closed afterwards, and the helper process was killed before it had read that line", sd.thread, sd.k, sd.end)
+				return
+			}
 			if !arrived {
+				// neither seen nor destroyed: still on its way when the run was ended
+				if ro.simTime-sd.end <= quiescence+150*GMax*K {
+					st.Probe("out:line-still-on-its-way-when-the-run-ended")
+					continue
+				}
 				add("out-lines", "lost", "%s: Send of message %d returned nil but no such line reached the helper", sd.thread, sd.k)
 				return
 			}
